@@ -198,7 +198,10 @@ class WorldGen:
             parts.append(zid)
         elif self.has("longdates") and r.random() < 0.3:
             parts.append(self.recent_date().isoformat())
+            date_only = r.random() < 0.12
         body = self.words(first=True)
+        if not with_zid and len(parts) > 1 and parts[-1][:2] == "20" and len(parts[-1]) == 10 and locals().get("date_only"):
+            body = []  # the create date is the note's whole first line
         sep = " "
         if self.has("double_space") and r.random() < 0.4:
             sep = "  "
